@@ -88,13 +88,15 @@ type Engine struct {
 	current   string
 	lastTask  *Task
 	strat     Strategy
-	changeAt  map[int]bool
-	siteOrd   map[string]int
-	nextID    int
-	Net       *Network
-	prioNext  int
-	lowPrio   int
-	netPrio   map[string]int
+	// selectReverse: ready cases of the library's selects are tried in reverse textual order
+	selectReverse bool
+	changeAt      map[int]bool
+	siteOrd       map[string]int
+	nextID        int
+	Net           *Network
+	prioNext      int
+	lowPrio       int
+	netPrio       map[string]int
 
 	driverDone bool
 	Stuck      string // non-empty: the run could not finish (why)
@@ -406,6 +408,11 @@ func (e *Engine) nextWake() time.Time {
 
 func (e *Engine) initStrategy() {
 	run := e.Tape.Run
+	defer func() {
+		if e.selectReverse = run.Choose("select-order", 3) == 2; e.selectReverse {
+			e.Probe("sched.select_reverse_order")
+		}
+	}()
 	switch run.Choose("strategy", 10) {
 	case 0, 1, 2, 3:
 		e.strat = Strategy{Kind: "sticky", PreemptPm: []int{0, 20, 100, 300}[run.Choose("preempt-rate", 4)]}
